@@ -161,8 +161,30 @@ def gen_scenario(rng, awkward, n_ops):
     for u in urls:
         w = rng.choice(["", "", " 1", " 2", " 3", " 5", " 0"])
         lines.append("upsert " + esc(u) + w)
-    lines.append("servers")
+    if rng.random() < 0.5:
+        lines.append("servers")
     now = 0
+
+    def replace_member():
+        """rolling replacement: a member leaves and another one joins back to back - the pool keeps its size - and the
+        very next requests carry a cookie naming the one that left and a cookie naming the one that joined"""
+        a = rng.choice(urls)
+        c = gen_url(rng, awkward)
+        m = minter(codec)
+        lines.append("mint %s %s" % (m, esc(a)))
+        lines.append("req cookie=@1")
+        chg = ["remove " + esc(a), "upsert " + esc(c) + rng.choice(["", " 2"])]
+        if rng.random() < 0.3:
+            chg.reverse()
+        lines.extend(chg)
+        if rng.random() < 0.3:
+            lines.append("servers")
+        lines.append("req cookie=@1")
+        lines.append("mint %s %s" % (m, esc(c)))
+        lines.append("req cookie=@1")
+        if rng.random() < 0.5:
+            lines.append("req cookie=@%d" % rng.choice([2, 3]))
+        urls.append(c)
 
     def mint():
         k = rng.random()
@@ -177,6 +199,8 @@ def gen_scenario(rng, awkward, n_ops):
         r = rng.random()
         if r < 0.07:
             mint()
+        elif r < 0.12:
+            replace_member()
         elif r < 0.62:
             c = rng.random()
             if c < 0.2:
@@ -213,7 +237,8 @@ def gen_scenario(rng, awkward, n_ops):
                 lines.append("upsert " + esc(nu))
             else:
                 lines.append("upsert " + esc(u) + rng.choice(["", " 1", " 4", " 0", " 2"]))
-            lines.append("servers")
+            if rng.random() < 0.35:
+                lines.append("servers")
         elif r < 0.84:
             q = rng.random()
             if q < 0.35:
@@ -279,7 +304,7 @@ def analyse(ops, outs):
     recs = []
     stats = {"pinned": 0, "degraded": 0, "req": 0}
     codec = None
-    pool = {}      # served-string -> (weight, key), in Servers() order; None = unknown
+    pool = {}      # member URL string -> (weight, key), derived from the upsert/remove calls; None = unknown
     now = 0
     jar = []       # dicts: server, leaf (minting leaf spec), t (mint time), sealed
     for l, o in zip(ops, outs):
@@ -291,14 +316,18 @@ def analyse(ops, outs):
         if f[0] == "cfg":
             m = re.search(r"codec=(\S+)", l)
             codec = m.group(1) if (m and o == "ok") else None
+            pool, jar, now = {}, [], 0
             continue
         if codec is None or o == "bad-op":
             continue
-        if f[0] == "servers" and o.startswith("servers"):
-            pool = {}
-            for t in o.split()[1:]:
-                u, w, key = t.rsplit(",", 2)
-                pool[u] = (int(w), key)
+        if f[0] == "servers":
+            # Servers() as the implementation lists it: NOT used as the truth about membership (the truth is what the
+            # administration calls did, below) - only when those are unknown
+            if pool is None and o.startswith("servers"):
+                pool = {}
+                for t in o.split()[1:]:
+                    u, w, key = t.rsplit(",", 2)
+                    pool[u] = (int(w), key)
         elif f[0] == "codec" and o == "ok":
             codec = f[1]
         elif f[0] == "adv" and o == "ok":
@@ -308,9 +337,25 @@ def analyse(ops, outs):
             if len(t) == 3 and t[1] != "none":
                 u, key = t[2].rsplit(",", 1)
                 jar.append({"server": u, "key": key, "leaf": minter(f[1]), "t": now, "foreign": True})
-        elif f[0] in ("upsert", "remove"):
-            # the generator always lists the pool after a change; until then membership is unknown
-            if o == "ok":
+        elif f[0] == "upsert" and o.startswith("ok"):
+            # membership follows from the administration calls themselves: a successful upsert of a new identity adds
+            # a member (the URL as given), of a known identity only changes its weight
+            t = o.split(" ")
+            if len(t) == 2 and t[1].count(",") >= 2 and pool is not None:
+                u, w, key = t[1].rsplit(",", 2)
+                old = [x for x, (_, k) in pool.items() if k == key]
+                if old:
+                    pool[old[0]] = (int(w), key)
+                else:
+                    pool[u] = (int(w), key)
+            else:
+                pool = None
+        elif f[0] == "remove" and o.startswith("ok"):
+            t = o.split(" ")
+            if len(t) == 2 and pool is not None:
+                for x in [x for x, (_, k) in pool.items() if k == t[1]]:
+                    del pool[x]
+            else:
                 pool = None
         elif f[0] == "req":
             m = REQ.match(o)
